@@ -873,6 +873,9 @@ func (g *FuncGen) checkExit(res []string, pos token.Pos) {
 	}
 	g.execGhost("exit", cx)
 	for _, h := range g.c.Hints {
+		if g.concrete {
+			break // hints are proof steps about the symbolic execution, not facts about an observed state
+		}
 		hcx := *cx
 		hcx.locals = true
 		hcx.at = g.cur
@@ -895,6 +898,9 @@ func (g *FuncGen) checkExit(res []string, pos token.Pos) {
 			}
 			g.oblig("ensures", l2, t, pos, e.Props, e.Src)
 		}
+	}
+	if g.concrete {
+		return
 	}
 	// frame: every component changed since entry is unchanged outside the modifies locations
 	cxE := g.newSpecCtx(g.entry, g.entry)
